@@ -1099,8 +1099,22 @@ theorem mem_dataSourcesOf {nodes : List NodeD} {v s : Name} :
 
 theorem mem_typeSourcesFor {b : BuildInput} {e : Edge} {v s : Name} :
     s ∈ typeSourcesFor b e v ↔
-      s = e.src ∨ ∃ p ∈ b.nodes, p.name = s ∧ v ∈ p.dataOuts ∧ p.name ≠ e.src ∧ p.name ≠ e.dst := by
+      s = e.src ∨ ∃ p ∈ b.nodes, p.name = s ∧ v ∈ p.dataOuts ∧ p.name ≠ e.src := by
   unfold typeSourcesFor
+  rw [List.mem_cons, List.mem_filter, mem_dataSourcesOf]
+  simp only [bne_iff_ne, ne_eq]
+  constructor
+  · rintro (h | ⟨⟨p, hp, rfl, hv⟩, h1⟩)
+    · exact .inl h
+    · exact .inr ⟨p, hp, rfl, hv, h1⟩
+  · rintro (h | ⟨p, hp, rfl, hv, h1⟩)
+    · exact .inl h
+    · exact .inr ⟨⟨p, hp, rfl, hv⟩, h1⟩
+
+theorem mem_typeSourcesForSkipSelf {b : BuildInput} {e : Edge} {v s : Name} :
+    s ∈ typeSourcesForSkipSelf b e v ↔
+      s = e.src ∨ ∃ p ∈ b.nodes, p.name = s ∧ v ∈ p.dataOuts ∧ p.name ≠ e.src ∧ p.name ≠ e.dst := by
+  unfold typeSourcesForSkipSelf
   rw [List.mem_cons, List.mem_filter, mem_dataSourcesOf]
   simp only [Bool.and_eq_true, bne_iff_ne, ne_eq]
   constructor
@@ -1111,17 +1125,36 @@ theorem mem_typeSourcesFor {b : BuildInput} {e : Edge} {v s : Name} :
     · exact .inl h
     · exact .inr ⟨⟨p, hp, rfl, hv⟩, h1, h2⟩
 
-/-- every value of the edge is typed against the edge's own source AND against every other data producer -/
+/-- every value of the edge is typed against the edge's own source AND against every other data producer
+(the edge's target included, repair `07d3d31`) -/
 theorem chkTypesEdgeProducers_none {b : BuildInput} {e : Edge} :
     chkTypesEdgeProducers b e = none ↔
       ∀ v ∈ e.values, TypedOK b e v ∧
-        ∀ p ∈ b.nodes, v ∈ p.dataOuts → p.name ≠ e.src → p.name ≠ e.dst →
+        ∀ p ∈ b.nodes, v ∈ p.dataOuts → p.name ≠ e.src →
           TypedOK b { e with src := p.name } v := by
   unfold chkTypesEdgeProducers
   rw [List.findSome?_eq_none_iff]
   refine forall_congr' fun v => forall_congr' fun _ => ?_
   rw [List.findSome?_eq_none_iff]
   simp only [chkTypesTriple_none, mem_typeSourcesFor]
+  constructor
+  · intro h
+    exact ⟨h e.src (.inl rfl), fun p hp hv h1 => h p.name (.inr ⟨p, hp, rfl, hv, h1⟩)⟩
+  · rintro ⟨h0, h⟩ s (rfl | ⟨p, hp, rfl, hv, h1⟩)
+    · exact h0
+    · exact h p hp hv h1
+
+/-- before repair `07d3d31`: the edge's target was exempt -/
+theorem chkTypesEdgeProducersSkipSelf_none {b : BuildInput} {e : Edge} :
+    chkTypesEdgeProducersSkipSelf b e = none ↔
+      ∀ v ∈ e.values, TypedOK b e v ∧
+        ∀ p ∈ b.nodes, v ∈ p.dataOuts → p.name ≠ e.src → p.name ≠ e.dst →
+          TypedOK b { e with src := p.name } v := by
+  unfold chkTypesEdgeProducersSkipSelf
+  rw [List.findSome?_eq_none_iff]
+  refine forall_congr' fun v => forall_congr' fun _ => ?_
+  rw [List.findSome?_eq_none_iff]
+  simp only [chkTypesTriple_none, mem_typeSourcesForSkipSelf]
   constructor
   · intro h
     exact ⟨h e.src (.inl rfl), fun p hp hv h1 h2 => h p.name (.inr ⟨p, hp, rfl, hv, h1, h2⟩)⟩
@@ -1145,7 +1178,7 @@ theorem mem_nxOrder {nodes : List NodeD} {es : List Edge} {e : Edge} : e ∈ nxO
 theorem chkTypes_none {b : BuildInput} :
     chkTypes b = none ↔
       (b.strict = true → ∀ e ∈ graphEdges b, e.kind ≠ .ordering → ∀ v ∈ e.values, TypedOK b e v ∧
-        ∀ p ∈ b.nodes, v ∈ p.dataOuts → p.name ≠ e.src → p.name ≠ e.dst →
+        ∀ p ∈ b.nodes, v ∈ p.dataOuts → p.name ≠ e.src →
           TypedOK b { e with src := p.name } v) := by
   unfold chkTypes
   cases hs : b.strict
@@ -1162,7 +1195,7 @@ theorem chkTypes_none_split {b : BuildInput} :
     chkTypes b = none ↔
       (b.strict = true → ∀ e ∈ graphEdges b, e.kind ≠ .ordering → ∀ v ∈ e.values, TypedOK b e v) ∧
       (b.strict = true → ∀ e ∈ graphEdges b, e.kind ≠ .ordering → ∀ v ∈ e.values,
-        ∀ p ∈ b.nodes, v ∈ p.dataOuts → p.name ≠ e.src → p.name ≠ e.dst →
+        ∀ p ∈ b.nodes, v ∈ p.dataOuts → p.name ≠ e.src →
           TypedOK b { e with src := p.name } v) := by
   rw [chkTypes_none]
   constructor
@@ -1170,6 +1203,28 @@ theorem chkTypes_none_split {b : BuildInput} :
     exact ⟨fun hs e he hk v hv => (h hs e he hk v hv).1, fun hs e he hk v hv => (h hs e he hk v hv).2⟩
   · rintro ⟨h1, h2⟩ hs e he hk v hv
     exact ⟨h1 hs e he hk v hv, h2 hs e he hk v hv⟩
+
+/-- the check before repair `07d3d31`: the edge's target was exempt from the "every other producer" half -/
+theorem chkTypesSkipSelf_none {b : BuildInput} :
+    chkTypesSkipSelf b = none ↔
+      (b.strict = true → ∀ e ∈ graphEdges b, e.kind ≠ .ordering → ∀ v ∈ e.values, TypedOK b e v ∧
+        ∀ p ∈ b.nodes, v ∈ p.dataOuts → p.name ≠ e.src → p.name ≠ e.dst →
+          TypedOK b { e with src := p.name } v) := by
+  unfold chkTypesSkipSelf
+  cases hs : b.strict
+  · simp
+  · simp only [if_true, List.findSome?_eq_none_iff, mem_nxOrder, forall_const]
+    refine forall_congr' fun e => forall_congr' fun _ => ?_
+    by_cases hk : e.kind = .ordering
+    · simp [hk]
+    · simp only [beq_iff_eq, hk, if_false, ne_eq, not_false_eq_true, forall_const]
+      exact chkTypesEdgeProducersSkipSelf_none
+
+/-- repair `07d3d31` only ever accepts less: whatever the present check passes, the check it replaced passed
+(the converse fails: `HG.C19s.flaw_self_feed_unchecked_witness`) -/
+theorem chkTypesSkipSelf_of_chkTypes {b : BuildInput} (h : chkTypes b = none) : chkTypesSkipSelf b = none :=
+  chkTypesSkipSelf_none.mpr fun hs e he hk v hv =>
+    ⟨(chkTypes_none.mp h hs e he hk v hv).1, fun p hp hpv h1 _ => (chkTypes_none.mp h hs e he hk v hv).2 p hp hpv h1⟩
 
 /-- the pre-repair check: the edge's own (first-listed) producer only -/
 theorem chkTypesFirstProducer_none {b : BuildInput} :
@@ -1517,9 +1572,10 @@ structure WellFormed (b : BuildInput) : Prop where
   typed : b.strict = true → ∀ e ∈ graphEdges b, e.kind ≠ .ordering → ∀ v ∈ e.values, TypedOK b e v
   /-- … and so is every OTHER node producing that value as data (the built graph links a consumer to the
   first-listed producer of a name only; any of the — exclusive or ordered — producers can deliver it):
-  `p` is annotated for `v`, compatibly with the parameter `v` of the edge's target -/
+  `p` is annotated for `v`, compatibly with the parameter `v` of the edge's target.  `p` may be the edge's
+  target itself (repair `07d3d31`): a node reading and writing `v` is typed against its own parameter. -/
   typedAllProducers : b.strict = true → ∀ e ∈ graphEdges b, e.kind ≠ .ordering → ∀ v ∈ e.values,
-    ∀ p ∈ b.nodes, v ∈ p.dataOuts → p.name ≠ e.src → p.name ≠ e.dst → TypedOK b { e with src := p.name } v
+    ∀ p ∈ b.nodes, v ∈ p.dataOuts → p.name ≠ e.src → TypedOK b { e with src := p.name } v
 
 /-- the only way to obtain a runnable graph value: a description together with the evidence that
 the constructor accepted it -/
